@@ -271,6 +271,23 @@ theorem C12_batching_reciprocalRank (k : Option Int) :
     FamStat.BatchingIrrelevantOrdered (listAcc Q) (reciprocalRankStat k) catPair :=
   batching_irrelevant_ordered_total (listAcc Q) (listAcc_laws _) (FamStat.statCat_reciprocalRank k)
 
+/-! ### the arity marker of the MeanSquaredError / R2Score adapters is NOT additive
+
+  Full statement (FALSE for the driver's encoding):
+    `StatCat partsAcc (fun b => withMarker two (mseStat d b)) (catCols d)`
+  The adapters append a part `[1]` to every `(n, d)` batch so that `compute` can tell the 1-D from the
+  2-D form; accumulated over `k` batches it is `[k]`, on the concatenation it is `[1]`.  `compute` only
+  tests it against `0`, so nothing observable depends on it; the additive parts themselves satisfy
+  `StatCat` (`FamStat.statCat_mse`, `FamStat.statCat_r2`, used above), and for 1-D streams the marker is
+  `[0]`, which is additive. -/
+
+/-- witness: two `(1, 1)` batches — marker `[1]` on the concatenation, `[2]` accumulated. -/
+theorem mse_arity_marker_witness :
+    let b : ColBatch := ⟨[[1]], [[0]], 1, none⟩
+    (withMarker true (mseStat 1 (catCols 1 [b, b]))).toOption = some [[2], [2], [1]] ∧
+    accL partsAcc (statT partsAcc fun b => withMarker true (mseStat 1 b)) [b, b] = [[2], [2], [2]] := by
+  decide +kernel
+
 /-! ### non-vacuity: concrete batch lists (sizes 3/1/2, 2/1, …) satisfy the hypotheses -/
 
 
